@@ -22,6 +22,7 @@ import textwrap
 from vlib import core, refmatch
 
 ID = "C19"
+READY = True
 LEVEL = "exploration"
 RULE = ("one case = one module (generated: functions/classes with arithmetic, calls, attributes, comparisons, "
         "if/elif chains, multi-line and lower-precedence operands, f-strings; or 1-3 definitions cut from a real "
